@@ -1,4 +1,5 @@
 import NunavutVerif.Lemmas.CLiteralEval
+import NunavutVerif.Gen.CLiteralCfg
 /-!
 Floating-point lemmas: what the rendered quotient literals evaluate to, finiteness inside the range of the type.
 Big powers of two stay symbolic: never let the elaborator or the kernel compare `2 ^ binary64.bias` with
@@ -76,5 +77,643 @@ theorem roundDec_dot0 {n : Nat} (h : IsExactNat n) (s : Bool) :
   rw [b64_emax] at hc
   simp only
   rw [if_neg (Nat.not_lt.2 hc)]
+
+theorem eval_flit_dot0 (d : Dialect) {n : Nat} (h : IsExactNat n) :
+    eval d (.flit (10 * n) (-1) .none) = .ok (.flt .double (exactF false n)) := by
+  rw [eval, roundDec_dot0 h false]
+  simp only [exactF]
+
+theorem exactF_canon {n : Nat} (h : IsExactNat n) : Canon binary64 (pyFloatOfNat n).1 (pyFloatOfNat n).2 :=
+  pyFloatOfNat_canon h.1
+
+/-- the numerator `n.0` / `-n.0` -/
+theorem eval_numAst (d : Dialect) (num : Int) (h : IsExactNat num.natAbs) :
+    eval d (numAst num) = .ok (.flt .double (exactF (decide (num < 0)) num.natAbs)) := by
+  cases num with
+  | ofNat n =>
+    have : decide (Int.ofNat n < 0) = false := by simp
+    rw [this]
+    exact eval_flit_dot0 d h
+  | negSucc k =>
+    have : decide (Int.negSucc k < 0) = true := by simp [Int.negSucc_lt_zero]
+    rw [this]
+    have h' : IsExactNat (k + 1) := h
+    have e := eval_flit_dot0 d h'
+    show eval d (.neg (.flit (10 * (k + 1)) (-1) .none)) = _
+    rw [eval, e]
+    simp only [bind, Except.bind, CVal.promoted, exactF, fneg, pure, Except.pure, Bool.not_false, Int.natAbs_negSucc]
+theorem roundFrac_den_one {num : Int} (h : IsExactNat num.natAbs) :
+    roundFrac binary64 ⟨num, 1⟩ = exactF (decide (num < 0)) num.natAbs := by
+  unfold roundFrac roundTo exactF pyFloatOfNat
+  rw [b64_prec, b64_bias, b64_emax]
+  have hc := (pyFloatOfNat_canon h.1).2.2
+  unfold pyFloatOfNat at hc
+  rw [b64_emax] at hc
+  simp only
+  rw [if_neg (Nat.not_lt.2 hc)]
+
+theorem roundTo_congr (g : Fmt) (s : Bool) {N D N' D' : Nat} (hD : 0 < D) (hD' : 0 < D') (h : N * D' = N' * D) :
+    roundTo g s N D = roundTo g s N' D' := by
+  unfold roundTo
+  rw [roundNat_congr hD hD' h]
+
+theorem eval_quotAst (d : Dialect) (f : Frac) (hd : 0 < f.den) (hn : IsExactNat f.num.natAbs) (hden : IsExactNat f.den) :
+    eval d (quotAst f.num f.den) = .ok (.flt .double (roundFrac binary64 f)) := by
+  unfold quotAst
+  by_cases h1 : f.den = 1
+  · rw [if_pos h1, eval_numAst d _ hn]
+    have : f = ⟨f.num, 1⟩ := by cases f; simp_all
+    rw [this, roundFrac_den_one hn]
+  · rw [if_neg h1, eval, eval_numAst d _ hn, eval_flit_dot0 d hden]
+    have c1 := exactF_canon hn
+    have c2 := exactF_canon hden
+    have hm2 : (pyFloatOfNat f.den).1 ≠ 0 := by
+      intro h0
+      have := hden.2
+      rw [h0, Nat.zero_mul] at this
+      have hp : 0 < f.den * 2 ^ 1074 := Nat.mul_pos hd (pow2_pos _)
+      omega
+    simp only [bind, Except.bind, CVal.promoted, exactF]
+    simp only [commonFloat, CVal.type, true_or, if_true]
+    simp only [toFloating, CType.fmt]
+    have hp : 1 ≤ binary64.prec := by rw [b64_prec]; decide
+    have e1 := convertF_self (s := decide (f.num < 0)) hp c1
+    have e2 := convertF_self (s := false) hp c2
+    rw [e1, e2]
+    rewrite [fdiv, if_neg hm2]
+    show Except.ok _ = Except.ok _
+    rewrite [Bool.bne_false]
+    unfold roundFrac
+    rewrite [b64_bias]
+    have key : roundTo binary64 (decide (f.num < 0))
+        ((pyFloatOfNat f.num.natAbs).fst * 2 ^ (pyFloatOfNat f.num.natAbs).snd * 2 ^ 1074)
+        ((pyFloatOfNat f.den).fst * 2 ^ (pyFloatOfNat f.den).snd) =
+        roundTo binary64 (decide (f.num < 0)) (f.num.natAbs * 2 ^ 1074) f.den := by
+      apply roundTo_congr _ _ (Nat.mul_pos (Nat.pos_of_ne_zero hm2) (pow2_pos _)) hd
+      rewrite [hn.2, hden.2]
+      generalize 2 ^ 1074 = P
+      ac_rfl
+    rewrite [key]
+    exact Eq.refl _
+
+/-! ### finiteness inside the range of the type, and the casts -/
+
+theorem roundFrac_canon {g : Fmt} (hp : 1 ≤ g.prec) (f : Frac) (hd : 0 < f.den) {a : Nat} (ha : a < 2 ^ g.prec)
+    (hr : f.num.natAbs * 2 ^ g.bias ≤ a * 2 ^ g.emax * f.den) :
+    ∃ m E, roundFrac g f = .fin (decide (f.num < 0)) m E ∧ Canon g m E ∧ m * 2 ^ E ≤ a * 2 ^ g.emax := by
+  have hc := roundNat_canonical (p := g.prec) (N := f.num.natAbs * 2 ^ g.bias) (D := f.den) hp hd
+  have he := roundNat_exp_le hp hd ha hr
+  have hv := roundNat_le_repr hp hd ha hr
+  refine ⟨_, _, ?_, ⟨hc.1, hc.2, he⟩, hv⟩
+  unfold roundFrac roundTo
+  simp only
+  rewrite [if_neg (Nat.not_lt.2 he)]
+  exact Eq.refl _
+
+/-- largest finite binary64 magnitude, as the bound of a fraction: `|num| ≤ (2^53 - 1) * 2^971 * den` -/
+def InRange64 (f : Frac) : Prop := f.num.natAbs ≤ (2 ^ 53 - 1) * 2 ^ 971 * f.den
+/-- largest finite binary32 magnitude: `|num| ≤ (2^24 - 1) * 2^104 * den` -/
+def InRange32 (f : Frac) : Prop := f.num.natAbs ≤ (2 ^ 24 - 1) * 2 ^ 104 * f.den
+
+theorem roundFrac64_fin (f : Frac) (hd : 0 < f.den) (hr : InRange64 f) :
+    ∃ m E, roundFrac binary64 f = .fin (decide (f.num < 0)) m E ∧ Canon binary64 m E := by
+  have h : f.num.natAbs * 2 ^ binary64.bias ≤ (2 ^ 53 - 1) * 2 ^ binary64.emax * f.den := by
+    rewrite [b64_bias, b64_emax, pow_split 2045 971 1074 (by decide)]
+    have := Nat.mul_le_mul_right (2 ^ 1074) hr
+    generalize 2 ^ 1074 = P at *
+    generalize 2 ^ 971 = Q at *
+    calc f.num.natAbs * P ≤ (2 ^ 53 - 1) * Q * f.den * P := this
+      _ = (2 ^ 53 - 1) * (Q * P) * f.den := by ac_rfl
+  obtain ⟨m, E, h1, h2, _⟩ := roundFrac_canon (g := binary64) (by rw [b64_prec]; decide) f hd
+    (a := 2 ^ 53 - 1) (by rw [b64_prec]; exact Nat.sub_lt (pow2_pos _) (by decide)) h
+  exact ⟨m, E, h1, h2⟩
+
+theorem pow2_24_29 : (2 ^ 24 - 1) * 2 ^ 29 < 2 ^ 53 := by decide
+
+/-- inside the binary32 range the binary64 rounding stays inside it, and the conversion to binary32 is finite -/
+theorem roundFrac32_fin (f : Frac) (hd : 0 < f.den) (hr : InRange32 f) :
+    ∃ m E m' E', roundFrac binary64 f = .fin (decide (f.num < 0)) m E ∧ Canon binary64 m E ∧
+      convertF binary64 binary32 (.fin (decide (f.num < 0)) m E) = .fin (decide (f.num < 0)) m' E' ∧ Canon binary32 m' E' := by
+  -- bound in binary64 units: (2^24 - 1) * 2^29 * 2^1149
+  have hp64 : 1 ≤ binary64.prec := by rw [b64_prec]; decide
+  have hc := roundNat_canonical (p := binary64.prec) (N := f.num.natAbs * 2 ^ binary64.bias) (D := f.den) hp64 hd
+  have hN : f.num.natAbs * 2 ^ binary64.bias ≤ (2 ^ 24 - 1) * 2 ^ 29 * 2 ^ 1149 * f.den := by
+    rewrite [b64_bias, pow_split 1149 75 1074 (by decide)]
+    have := Nat.mul_le_mul_right (2 ^ 1074) hr
+    rewrite [pow_split 104 29 75 (by decide)] at this
+    generalize 2 ^ 1074 = P at *
+    generalize 2 ^ 75 = Q at *
+    calc f.num.natAbs * P ≤ (2 ^ 24 - 1) * (2 ^ 29 * Q) * f.den * P := this
+      _ = (2 ^ 24 - 1) * 2 ^ 29 * (Q * P) * f.den := by ac_rfl
+  have ha : (2 ^ 24 - 1) * 2 ^ 29 < 2 ^ binary64.prec := by rw [b64_prec]; exact pow2_24_29
+  have he := roundNat_exp_le hp64 hd ha hN
+  have hv := roundNat_le_repr hp64 hd ha hN
+  have he' : (roundNat binary64.prec (f.num.natAbs * 2 ^ binary64.bias) f.den).2 ≤ binary64.emax := by
+    rewrite [b64_emax]; omega
+  generalize hr64 : roundNat binary64.prec (f.num.natAbs * 2 ^ binary64.bias) f.den = r at hc he hv he'
+  have e64 : roundFrac binary64 f = .fin (decide (f.num < 0)) r.1 r.2 := by
+    unfold roundFrac roundTo
+    rewrite [hr64]
+    simp only
+    rewrite [if_neg (Nat.not_lt.2 he')]
+    exact Eq.refl _
+  -- the conversion
+  have hp32 : 1 ≤ binary32.prec := by rw [b32_prec]; decide
+  have hK : 0 < 2 ^ binary64.bias := pow2_pos _
+  have hc32 := roundNat_canonical (p := binary32.prec) (N := r.1 * 2 ^ r.2 * 2 ^ binary32.bias) (D := 2 ^ binary64.bias) hp32 hK
+  have hN32 : r.1 * 2 ^ r.2 * 2 ^ binary32.bias ≤ (2 ^ 24 - 1) * 2 ^ binary32.emax * 2 ^ binary64.bias := by
+    rewrite [b32_bias, b32_emax, b64_bias]
+    have := Nat.mul_le_mul_right (2 ^ 149) hv
+    have e : (2 ^ 24 - 1) * 2 ^ 29 * 2 ^ 1149 * 2 ^ 149 = (2 ^ 24 - 1) * 2 ^ 253 * 2 ^ 1074 := by
+      rewrite [Nat.mul_assoc, Nat.mul_assoc, Nat.mul_assoc, ← pow_split 1298 1149 149 (by decide), ← pow_split 1327 29 1298 (by decide),
+        ← pow_split 1327 253 1074 (by decide)]
+      exact Eq.refl _
+    rewrite [e] at this
+    exact this
+  have ha32 : 2 ^ 24 - 1 < 2 ^ binary32.prec := by rw [b32_prec]; exact Nat.sub_lt (pow2_pos _) (by decide)
+  have he32 := roundNat_exp_le hp32 hK ha32 hN32
+  refine ⟨r.1, r.2, _, _, e64, ⟨hc.1, hc.2, he'⟩, ?_, ⟨hc32.1, hc32.2, he32⟩⟩
+  simp only [convertF]
+  unfold roundTo
+  simp only
+  rewrite [if_neg (Nat.not_lt.2 he32)]
+  exact Eq.refl _
+
+
+theorem toFloating_flt (t s : CType) (x : FVal) : toFloating t (.flt s x) = convertF s.fmt t.fmt x := by
+  unfold toFloating; exact Eq.refl _
+theorem fmt_double : CType.fmt .double = binary64 := by unfold CType.fmt; exact Eq.refl _
+theorem fmt_float : CType.fmt .float = binary32 := by unfold CType.fmt; exact Eq.refl _
+theorem bind_ok {ε α β : Type} (a : α) (f : α → Except ε β) : (Except.ok a >>= f) = f a := rfl
+
+theorem eval_cast_double (d : Dialect) (e : CExpr) {s : Bool} {m E : Nat}
+    (he : eval d e = .ok (.flt .double (.fin s m E))) (hc : Canon binary64 m E) :
+    eval d (.cast .double e) = .ok (.flt .double (.fin s m E)) := by
+  have hp : 1 ≤ binary64.prec := by rw [b64_prec]; decide
+  rewrite [eval, he, bind_ok, toFloating_flt, fmt_double, convertF_self hp hc]
+  exact Eq.refl _
+
+theorem eval_cast_float (d : Dialect) (e : CExpr) {s s' : Bool} {m E m' E' : Nat}
+    (he : eval d e = .ok (.flt .double (.fin s m E)))
+    (hcv : convertF binary64 binary32 (.fin s m E) = .fin s' m' E') :
+    eval d (.cast .float e) = .ok (.flt .float (.fin s' m' E')) := by
+  rewrite [eval, he, bind_ok, toFloating_flt, fmt_double, fmt_float, hcv]
+  exact Eq.refl _
+
+/-! ### what the filter renders for exact operands -/
+
+theorem floatLiteralExpression_exact (f : Frac) (h1 : isExact f.num = true) (h2 : isExact (f.den : Int) = true) :
+    floatLiteralExpression f = .ok (quotExpr f.num f.den) := by
+  unfold floatLiteralExpression quotExpr numStr
+  rewrite [h1, h2]
+  simp only [Bool.and_self, if_true]
+  split
+  · exact Eq.refl _
+  · simp [List.append_assoc]
+
+theorem cFloatTypeName_eq {w : Nat} (hw : w ≤ 64) :
+    cFloatTypeName w = .ok (if w ≤ 32 then "float".toList else "double".toList) := by
+  unfold cFloatTypeName bestFit
+  by_cases h8 : w ≤ 8
+  · have : w ≤ 32 := by omega
+    simp [h8, this, bind, Except.bind, pure, Except.pure]
+  · by_cases h16 : w ≤ 16
+    · have : w ≤ 32 := by omega
+      simp [h8, h16, this, bind, Except.bind, pure, Except.pure]
+    · by_cases h32 : w ≤ 32
+      · simp [h8, h16, h32, bind, Except.bind, pure, Except.pure]
+      · simp [h8, h16, h32, hw, bind, Except.bind, pure, Except.pure]
+
+/-- type name of a float constant of `w` bits -/
+def floatTyStr (w : Nat) : Str := if w ≤ 32 then "float".toList else "double".toList
+
+theorem floatTyStr_cases (w : Nat) : floatTyStr w = "float".toList ∨ floatTyStr w = "double".toList := by
+  unfold floatTyStr; split <;> simp
+
+theorem filterLiteral_c_exact (f : Frac) {w : Nat} (hw : w ≤ 64) (h1 : isExact f.num = true) (h2 : isExact (f.den : Int) = true) :
+    filterLiteral Gen.cCfg (.frac f) (.float w) = .ok (cCast (floatTyStr w) (quotExpr f.num f.den)) := by
+  unfold filterLiteral
+  simp only [Gen.cCfg, asFrac]
+  rewrite [floatLiteralExpression_exact f h1 h2, cFloatTypeName_eq hw]
+  simp [bind, Except.bind, pure, Except.pure, formatCast, cCast, floatTyStr]
+
+
+theorem staticCast_chars : "static_cast".toList = ['s', 't', 'a', 't', 'i', 'c', '_', 'c', 'a', 's', 't'] := by decide
+
+theorem filterLiteral_cpp_exact (f : Frac) {w : Nat} (hw : w ≤ 64) (h1 : isExact f.num = true) (h2 : isExact (f.den : Int) = true) :
+    filterLiteral Gen.cppCfg (.frac f) (.float w) = .ok (cppCast (floatTyStr w) (quotExpr f.num f.den)) := by
+  unfold filterLiteral
+  simp only [Gen.cppCfg, asFrac]
+  rewrite [floatLiteralExpression_exact f h1 h2, cFloatTypeName_eq hw, bind_ok, bind_ok]
+  show Except.ok _ = Except.ok _
+  congr 1
+
+theorem usesStaticCast_quotToks (num : Int) (den : Nat) (pre post : List Tok)
+    (hpre : usesStaticCast pre = false) (hpost : usesStaticCast post = false) :
+    usesStaticCast (pre ++ quotToks num den ++ post) = false := by
+  unfold usesStaticCast at *
+  unfold quotToks numToks
+  cases num <;> (split <;> simp_all)
+
+/-! ### the Python expressions -/
+
+theorem sfx00 (rest : Str) : sfxStr false 0 ++ rest = rest := by simp [sfxStr]
+
+/-- a bare decimal number followed by `rest` -/
+theorem lex_nat_tok (g n : Nat) (rest : Str) (hr : safeEnd rest = true) :
+    lex (g + 1) (natStr n ++ rest) = (lex g rest).map (Tok.int n (decide (n ≠ 0)) false 0 :: ·) := by
+  have := lex_int_tok g n false 0 (by decide) rest hr
+  rwa [sfx00] at this
+
+def pyIntToks : Int → List Tok
+  | .ofNat n => [.int n (decide (n ≠ 0)) false 0]
+  | .negSucc k => [.minus, .int (k + 1) (decide (k + 1 ≠ 0)) false 0]
+
+def pyIntSteps : Int → Nat
+  | .ofNat _ => 1
+  | .negSucc _ => 2
+
+theorem lexesAs_intStr (v : Int) : LexesAs (intStr v) (pyIntToks v) (pyIntSteps v) := by
+  cases v with
+  | ofNat n => intro g rest hr; exact lex_nat_tok g n rest hr
+  | negSucc k =>
+    intro g rest hr
+    show lex (g + 1 + 1) ('-' :: (natStr (k + 1) ++ rest)) = _
+    rw [lex_minus, lex_nat_tok g (k + 1) rest hr]
+    cases lex g rest <;> simp [pyIntToks]
+
+theorem pyIntSteps_le (v : Int) : pyIntSteps v ≤ 2 := by cases v <;> simp [pyIntSteps]
+
+def pyIntAst : Int → PyExpr
+  | .ofNat n => .int n
+  | .negSucc k => .neg (.int (k + 1))
+
+theorem pyParse_int (v : Int) : pyParse (pyIntToks v) = some (pyIntAst v) := by cases v <;> rfl
+
+theorem pyEval_int (v : Int) : pyEval (pyIntAst v) = .ok (.int v) := by
+  cases v with
+  | ofNat n => rfl
+  | negSucc k => simp [pyIntAst, pyEval, bind, Except.bind, pure, Except.pure]; rfl
+
+theorem pyEvalStr_of {s : Str} {ts : List Tok} {e : PyExpr} (hl : lexStr s = some ts) (hp : pyParse ts = some e) :
+    pyEvalStr s = pyEval e := by
+  unfold pyEvalStr; rw [hl]; simp only [hp]
+
+theorem safeEnd_slash_sp (r : Str) : safeEnd (' ' :: '/' :: r) = true := rfl
+
+/-- `n / d` as the Python template writes it -/
+theorem lexStr_py_quot (num : Int) (den : Nat) :
+    lexStr (intStr num ++ " / ".toList ++ natStr den) =
+      some (pyIntToks num ++ [.slash, .int den (decide (den ≠ 0)) false 0]) := by
+  unfold lexStr
+  generalize (intStr num ++ " / ".toList ++ natStr den).length = L
+  have hk := pyIntSteps_le num
+  have h1 := lexesAs_intStr num (L + 32 - pyIntSteps num - 5 + 1 + 1 + 1 + 1 + 1) (' ' :: '/' :: ' ' :: natStr den) (safeEnd_slash_sp _)
+  have h2 := lex_nat_tok (L + 32 - pyIntSteps num - 5 + 1) den [] rfl
+  rw [List.append_nil] at h2
+  have e : intStr num ++ " / ".toList ++ natStr den = intStr num ++ (' ' :: '/' :: ' ' :: natStr den) := by
+    simp [List.append_assoc]
+  rw [e, show L + 32 = L + 32 - pyIntSteps num - 5 + 1 + 1 + 1 + 1 + 1 + pyIntSteps num by omega, h1, lex_space, lex_slash,
+    lex_space, h2, lex_nil]
+  simp
+
+theorem pyParse_quot (num : Int) (den : Nat) (dec : Bool) :
+    pyParse (pyIntToks num ++ [.slash, .int den dec false 0]) = some (.div (pyIntAst num) (.int den)) := by
+  cases num <;> rfl
+
+
+theorem pyTrueDiv_eq (f : Frac) (hd : 0 < f.den) :
+    pyTrueDiv f.num f.den = finiteOrOverflow (roundFrac binary64 f) := by
+  unfold pyTrueDiv roundFrac
+  have h0 : ¬ ((f.den : Int) = 0) := by omega
+  have hs : (decide (f.num < 0) != decide ((f.den : Int) < 0)) = decide (f.num < 0) := by
+    have : decide ((f.den : Int) < 0) = false := by simp
+    rw [this, Bool.bne_false]
+  rewrite [if_neg h0, hs, Int.natAbs_natCast, b64_bias]
+  exact Eq.refl _
+
+theorem finiteOrOverflow_fin (s : Bool) (m E : Nat) : finiteOrOverflow (.fin s m E) = .ok (.fin s m E) := rfl
+
+theorem pyEval_quot (f : Frac) (hd : 0 < f.den) {s : Bool} {m E : Nat} (h : roundFrac binary64 f = .fin s m E) :
+    pyEval (.div (pyIntAst f.num) (.int f.den)) = .ok (.float (.fin s m E)) := by
+  rewrite [pyEval, pyEval_int, bind_ok, pyEval, bind_ok]
+  have e : pyTrueDiv f.num (f.den : Int) = .ok (.fin s m E) := by
+    rewrite [pyTrueDiv_eq f hd, h]; exact finiteOrOverflow_fin s m E
+  simp only [pyAsInt]
+  rewrite [e]
+  exact Eq.refl _
+
+/-! ### what `roundFrac` returns -/
+
+theorem roundFrac_fin_inv {g : Fmt} {f : Frac} {s : Bool} {m E : Nat} (h : roundFrac g f = .fin s m E) :
+    s = decide (f.num < 0) ∧ roundNat g.prec (f.num.natAbs * 2 ^ g.bias) f.den = (m, E) ∧ E ≤ g.emax := by
+  unfold roundFrac roundTo at h
+  generalize roundNat g.prec (f.num.natAbs * 2 ^ g.bias) f.den = r at h ⊢
+  simp only at h
+  split at h
+  · cases h
+  · rename_i hle
+    injection h with h1 h2 h3
+    refine ⟨h1.symm, ?_, ?_⟩
+    · cases r; simp_all
+    · subst h3; omega
+
+/-- the tie condition in terms of the final exponent -/
+theorem roundNat_tie_even' {p N D : Nat} (hp : 2 ≤ p) (hD : 0 < D) (k : Nat)
+    (htie : 2 * N = (2 * k + 1) * (2 ^ (roundNat p N D).2 * D)) : (roundNat p N D).1 % 2 = 0 := by
+  have hden : 0 < D * 2 ^ expOf p N D := Nat.mul_pos hD (pow2_pos _)
+  by_cases hcarry : rneDiv N (D * 2 ^ expOf p N D) = 2 ^ p
+  · -- carry: the significand is 2^(p-1)
+    have : (roundNat p N D).1 = 2 ^ (p - 1) := by unfold roundNat; simp only [hcarry, if_true]
+    rw [this]
+    obtain ⟨j, rfl⟩ : ∃ j, p = j + 2 := ⟨p - 2, by omega⟩
+    simp [Nat.pow_succ, Nat.mul_mod_left]
+  · have hE : (roundNat p N D).2 = expOf p N D := by unfold roundNat; simp only [hcarry, if_false]
+    rw [hE] at htie
+    apply roundNat_tie_even hp hD
+    -- 2N = (2k+1) * den: N = k * den + den / 2
+    generalize hdd : D * 2 ^ expOf p N D = den at hden
+    have htie' : 2 * N = (2 * k + 1) * den := by rw [htie, ← hdd]; ac_rfl
+    -- den is even
+    have hev : den % 2 = 0 := by
+      have : (2 * k + 1) * den % 2 = 0 := by rw [← htie']; exact Nat.mul_mod_right 2 N
+      rw [Nat.mul_mod, show (2 * k + 1) % 2 = 1 by omega, Nat.one_mul, Nat.mod_mod] at this
+      exact this
+    obtain ⟨h2, rfl⟩ : ∃ h2, den = 2 * h2 := ⟨den / 2, by omega⟩
+    have hN : N = k * (2 * h2) + h2 := by
+      have hexp : (2 * k + 1) * (2 * h2) = 2 * (k * (2 * h2) + h2) := by
+        rw [Nat.add_mul, Nat.mul_add, Nat.one_mul, Nat.mul_assoc]
+      rw [hexp] at htie'
+      exact Nat.eq_of_mul_eq_mul_left (by decide) htie'
+    have : N % (2 * h2) = h2 := by
+      rw [hN, Nat.add_comm, Nat.add_mul_mod_self_right]
+      exact Nat.mod_eq_of_lt (by omega)
+    rw [this]
+
+
+/-! ### double rounding -/
+
+/-- the result is within half a unit of its own last place -/
+theorem roundNat_half_ulp {p N D : Nat} (hp : 1 ≤ p) (hD : 0 < D) :
+    2 * ((roundNat p N D).1 * 2 ^ (roundNat p N D).2 * D) ≤ 2 * N + 2 ^ (roundNat p N D).2 * D ∧
+    2 * N ≤ 2 * ((roundNat p N D).1 * 2 ^ (roundNat p N D).2 * D) + 2 ^ (roundNat p N D).2 * D := by
+  have hv := roundNat_value (N := N) (D := D) hp
+  have hden : 0 < D * 2 ^ expOf p N D := Nat.mul_pos hD (pow2_pos _)
+  have hb := rneDiv_bounds N _ hden
+  have hE : 2 ^ expOf p N D * D ≤ 2 ^ (roundNat p N D).2 * D := by
+    apply Nat.mul_le_mul_right
+    apply pow2_le
+    unfold roundNat; simp only; split <;> simp
+  rw [hv]
+  have e1 : rneDiv N (D * 2 ^ expOf p N D) * 2 ^ expOf p N D * D = rneDiv N (D * 2 ^ expOf p N D) * (D * 2 ^ expOf p N D) := by
+    ac_rfl
+  have e2 : 2 ^ expOf p N D * D = D * 2 ^ expOf p N D := Nat.mul_comm _ _
+  rw [e1]
+  rw [e2] at hE
+  generalize rneDiv N (D * 2 ^ expOf p N D) * (D * 2 ^ expOf p N D) = X at hb ⊢
+  generalize D * 2 ^ expOf p N D = Y at hb hE
+  generalize 2 ^ (roundNat p N D).2 * D = Z at hE ⊢
+  omega
+
+theorem pow_prod3 (a b c : Nat) : 2 * (2 ^ a * 2 ^ b * 2 ^ c) = 2 ^ (b + (a + c + 1)) := by
+  rw [show b + (a + c + 1) = 1 + (a + b + c) by omega, Nat.pow_add, Nat.pow_add, Nat.pow_add, Nat.pow_one]
+theorem pow_prod2 (a b c : Nat) : 2 ^ a * (2 ^ b * 2 ^ c) = 2 ^ (b + (a + c)) := by
+  rw [show b + (a + c) = a + (b + c) by omega, Nat.pow_add, Nat.pow_add]
+theorem two_mul_add_one_mul (a X : Nat) : 2 * (a * X) + X = (2 * a + 1) * X := by
+  rw [Nat.add_mul, Nat.one_mul, Nat.mul_assoc]
+
+/-- exponent of the binary32 conversion of a canonical binary64 number -/
+theorem convert_exp_gap {m E : Nat} (hc : E = 0 ∨ 2 ^ 52 ≤ m) :
+    E + 149 < (roundNat 24 (m * 2 ^ E * 2 ^ 149) (2 ^ 1074)).2 + 1074 := by
+  rcases hc with h | h
+  · omega
+  · have hK : 0 < 2 ^ 1074 := pow2_pos _
+    have hb := (roundNat_half_ulp (p := 24) (N := m * 2 ^ E * 2 ^ 149) (D := 2 ^ 1074) (by decide) hK).2
+    have hm' := (roundNat_canonical (p := 24) (N := m * 2 ^ E * 2 ^ 149) (D := 2 ^ 1074) (by decide) hK).1
+    generalize (roundNat 24 (m * 2 ^ E * 2 ^ 149) (2 ^ 1074)).1 = m' at hb hm'
+    generalize (roundNat 24 (m * 2 ^ E * 2 ^ 149) (2 ^ 1074)).2 = E' at hb ⊢
+    -- 2 * 2^52 * 2^E * 2^149 ≤ (2 m' + 1) 2^E' 2^1074 < 2^25 * 2^E' * 2^1074
+    have h1 : 2 ^ 52 * 2 ^ E * 2 ^ 149 ≤ m * 2 ^ E * 2 ^ 149 :=
+      Nat.mul_le_mul_right _ (Nat.mul_le_mul_right _ h)
+    have h2 : 2 * (m' * 2 ^ E' * 2 ^ 1074) + 2 ^ E' * 2 ^ 1074 = (2 * m' + 1) * (2 ^ E' * 2 ^ 1074) := by
+      rewrite [Nat.mul_assoc m']; exact two_mul_add_one_mul m' _
+    have h3 : (2 * m' + 1) * (2 ^ E' * 2 ^ 1074) < 2 ^ 25 * (2 ^ E' * 2 ^ 1074) := by
+      apply Nat.mul_lt_mul_of_pos_right _ (Nat.mul_pos (pow2_pos _) hK)
+      have : (2:Nat) ^ 25 = 2 * 2 ^ 24 := by decide
+      omega
+    have h4 : 2 * (2 ^ 52 * 2 ^ E * 2 ^ 149) < 2 ^ 25 * (2 ^ E' * 2 ^ 1074) := by
+      generalize 2 ^ 1074 = P at *
+      omega
+    rewrite [pow_prod3, pow_prod2] at h4
+    have := pow2_lt_iff.1 h4
+    omega
+theorem convertF_fin_inv {s : Bool} {m E : Nat} {s' : Bool} {m' E' : Nat}
+    (h : convertF binary64 binary32 (.fin s m E) = .fin s' m' E') :
+    roundNat 24 (m * 2 ^ E * 2 ^ 149) (2 ^ 1074) = (m', E') := by
+  simp only [convertF] at h
+  unfold roundTo at h
+  rewrite [b32_prec, b32_bias, b64_bias] at h
+  generalize roundNat 24 (m * 2 ^ E * 2 ^ 149) (2 ^ 1074) = r at h ⊢
+  simp only at h
+  split at h
+  · cases h
+  · injection h with _ h2 h3
+    cases r; simp_all
+
+/-- `float` constants: the double rounding (binary64 division, then the cast) stays strictly within one unit in the
+last place of the result. -/
+theorem float32_within_one_ulp (f : Frac) (hd : 0 < f.den) {s : Bool} {m' E' : Nat}
+    (h : convertF binary64 binary32 (roundFrac binary64 f) = .fin s m' E') :
+    m' * 2 ^ E' * f.den < f.num.natAbs * 2 ^ 149 + 2 ^ E' * f.den ∧
+      f.num.natAbs * 2 ^ 149 < m' * 2 ^ E' * f.den + 2 ^ E' * f.den := by
+  cases h64 : roundFrac binary64 f with
+  | inf s0 => rw [h64] at h; simp [convertF] at h
+  | nan => rw [h64] at h; simp [convertF] at h
+  | fin s0 m E =>
+    rw [h64] at h
+    obtain ⟨_, hr, _⟩ := roundFrac_fin_inv h64
+    rewrite [b64_prec, b64_bias] at hr
+    have hr32 := convertF_fin_inv h
+    have hc := roundNat_canonical (p := 53) (N := f.num.natAbs * 2 ^ 1074) (D := f.den) (by decide) hd
+    have H1 := roundNat_half_ulp (p := 53) (N := f.num.natAbs * 2 ^ 1074) (D := f.den) (by decide) hd
+    rw [hr] at hc H1
+    simp only at hc H1
+    have hK : 0 < 2 ^ 1074 := pow2_pos _
+    have H2 := roundNat_half_ulp (p := 24) (N := m * 2 ^ E * 2 ^ 149) (D := 2 ^ 1074) (by decide) hK
+    have H3 := convert_exp_gap (m := m) (E := E) (by rcases hc.2 with h | h; exact Or.inl h; exact Or.inr h)
+    rw [hr32] at H2 H3
+    simp only at H2 H3
+    have H3' : 2 ^ E * 2 ^ 149 < 2 ^ E' * 2 ^ 1074 := by
+      rw [← Nat.pow_add, ← Nat.pow_add]; exact pow2_lt_iff.2 H3
+    -- scaled atoms
+    generalize 2 ^ 1074 = P at *
+    generalize 2 ^ 149 = Q at *
+    generalize 2 ^ E = U at *
+    generalize 2 ^ E' = U' at *
+    generalize f.num.natAbs = n at *
+    generalize f.den = D at *
+    have x1 : 2 * (m' * U' * P * D) ≤ 2 * (m * U * D * Q) + U' * P * D ∧ 2 * (m * U * D * Q) ≤ 2 * (m' * U' * P * D) + U' * P * D := by
+      have a := Nat.mul_le_mul_right D H2.1
+      have b := Nat.mul_le_mul_right D H2.2
+      constructor
+      · calc 2 * (m' * U' * P * D) = 2 * (m' * U' * P) * D := by ac_rfl
+          _ ≤ (2 * (m * U * Q) + U' * P) * D := a
+          _ = 2 * (m * U * D * Q) + U' * P * D := by rw [Nat.add_mul]; ac_rfl
+      · calc 2 * (m * U * D * Q) = 2 * (m * U * Q) * D := by ac_rfl
+          _ ≤ (2 * (m' * U' * P) + U' * P) * D := b
+          _ = 2 * (m' * U' * P * D) + U' * P * D := by rw [Nat.add_mul]; ac_rfl
+    have x2 : 2 * (m * U * D * Q) ≤ 2 * (n * P * Q) + U * D * Q ∧ 2 * (n * P * Q) ≤ 2 * (m * U * D * Q) + U * D * Q := by
+      have a := Nat.mul_le_mul_right Q H1.1
+      have b := Nat.mul_le_mul_right Q H1.2
+      constructor
+      · calc 2 * (m * U * D * Q) = 2 * (m * U * D) * Q := by ac_rfl
+          _ ≤ (2 * (n * P) + U * D) * Q := a
+          _ = 2 * (n * P * Q) + U * D * Q := by rw [Nat.add_mul]; ac_rfl
+      · calc 2 * (n * P * Q) = 2 * (n * P) * Q := by ac_rfl
+          _ ≤ (2 * (m * U * D) + U * D) * Q := b
+          _ = 2 * (m * U * D * Q) + U * D * Q := by rw [Nat.add_mul]; ac_rfl
+    have x3 : U * D * Q < U' * P * D := by
+      calc U * D * Q = U * Q * D := by ac_rfl
+        _ < U' * P * D := Nat.mul_lt_mul_of_pos_right H3' hd
+    have g1 : (m' * U' * D) * P < (n * Q + U' * D) * P := by
+      rw [Nat.add_mul]
+      have e1 : m' * U' * D * P = m' * U' * P * D := by ac_rfl
+      have e2 : n * Q * P = n * P * Q := by ac_rfl
+      have e3 : U' * D * P = U' * P * D := by ac_rfl
+      rw [e1, e2, e3]
+      omega
+    have g2 : (n * Q) * P < (m' * U' * D + U' * D) * P := by
+      rw [Nat.add_mul]
+      have e1 : m' * U' * D * P = m' * U' * P * D := by ac_rfl
+      have e2 : n * Q * P = n * P * Q := by ac_rfl
+      have e3 : U' * D * P = U' * P * D := by ac_rfl
+      rw [e1, e2, e3]
+      omega
+    exact ⟨Nat.lt_of_mul_lt_mul_right g1, Nat.lt_of_mul_lt_mul_right g2⟩
+
+
+/-! ### the decimal fallback -/
+
+/-- what `reprReadsBack` gives -/
+theorem reprReadsBack_inv {m E : Nat} (h : reprReadsBack m E = true) :
+    ∃ mant e10, (∃ c r, reprBody m E = c :: r ∧ c.isDigit = true) ∧ ppAll false (reprBody m E) = true ∧
+      ppFlag false (reprBody m E) = false ∧ lexNumTok (reprBody m E) = some (.flt mant e10 .none) ∧
+      roundDec binary64 false mant e10 = .fin false m E := by
+  unfold reprReadsBack at h
+  simp only [Bool.and_eq_true, Bool.not_eq_true'] at h
+  obtain ⟨⟨⟨h1, h2⟩, h3⟩, h4⟩ := h
+  cases hs : reprBody m E with
+  | nil => rw [hs] at h1; simp at h1
+  | cons c r =>
+    rw [hs] at h1 h2 h3 h4
+    cases ht : lexNumTok (c :: r) with
+    | none => rw [ht] at h4; simp at h4
+    | some t =>
+      rw [ht] at h4
+      cases t with
+      | flt mant e10 suf =>
+        cases suf with
+        | none =>
+          simp only [beq_iff_eq] at h4
+          exact ⟨mant, e10, ⟨c, r, rfl, h1⟩, h2, h3, rfl, h4⟩
+        | f => simp at h4
+        | l => simp at h4
+      | _ => simp at h4
+
+theorem lexNumTok_raw {s : Str} {t : Tok} (h : lexNumTok s = some t) : lexNumRaw s = some (t, []) := by
+  unfold lexNumTok at h
+  split at h
+  · injection h with h; subst h; assumption
+  · cases h
+
+/-- the decimal text of the fallback, with its sign, lexes to one floating literal (after an optional minus) -/
+theorem lexesAs_repr {m E mant : Nat} {e10 : Int} (neg : Bool)
+    (hd : ∃ c r, reprBody m E = c :: r ∧ c.isDigit = true) (hpp : ppAll false (reprBody m E) = true)
+    (hfl : ppFlag false (reprBody m E) = false) (ht : lexNumTok (reprBody m E) = some (.flt mant e10 .none)) :
+    LexesAs (pyFloatRepr (.fin neg m E)) (if neg then [.minus, .flt mant e10 .none] else [.flt mant e10 .none])
+      (if neg then 2 else 1) := by
+  have key : ∀ g rest, safeEnd rest = true →
+      lex (g + 1) (reprBody m E ++ rest) = (lex g rest).map (Tok.flt mant e10 .none :: ·) := by
+    intro g rest hr
+    apply lex_num
+    · obtain ⟨c, r, e, hc⟩ := hd
+      exact ⟨c, r ++ rest, by rw [e]; rfl, hc⟩
+    · exact lexNum_of_raw hpp hfl hr (lexNumTok_raw ht)
+  intro g rest hr
+  cases neg with
+  | false =>
+    simp only [pyFloatRepr, Bool.false_eq_true, if_false, List.nil_append]
+    rw [key g rest hr]
+    cases lex g rest <;> simp
+  | true =>
+    simp only [pyFloatRepr, if_true, List.cons_append, List.nil_append]
+    rw [show g + 2 = g + 1 + 1 by omega, lex_minus, key g rest hr]
+    cases lex g rest <;> simp
+
+def fbToks (neg : Bool) (mant : Nat) (e10 : Int) : List Tok :=
+  if neg then [.minus, .flt mant e10 .none] else [.flt mant e10 .none]
+def fbAst (neg : Bool) (mant : Nat) (e10 : Int) : CExpr :=
+  if neg then .neg (.flit mant e10 .none) else .flit mant e10 .none
+
+theorem parse_cCast_fb {ty : Str} (hty : ty = "float".toList ∨ ty = "double".toList) (neg : Bool) (mant : Nat) (e10 : Int) :
+    parseToks (.lp :: .lp :: .ident ty :: .rp :: (fbToks neg mant e10 ++ [.rp])) = some (.cast (tyOf ty) (fbAst neg mant e10)) := by
+  rcases hty with h | h <;> subst h <;> cases neg <;> rfl
+
+theorem parse_cCast_macro_fb {ty : Str} (hty : ty = "float".toList ∨ ty = "double".toList) (neg : Bool) (mant : Nat) (e10 : Int) :
+    parseToks (.lp :: .lp :: .lp :: .ident ty :: .rp :: (fbToks neg mant e10 ++ [.rp, .rp])) =
+      some (.cast (tyOf ty) (fbAst neg mant e10)) := by
+  rcases hty with h | h <;> subst h <;> cases neg <;> rfl
+
+theorem parse_cppCast_fb {ty : Str} (hty : ty = "float".toList ∨ ty = "double".toList) (neg : Bool) (mant : Nat) (e10 : Int) :
+    parseToks (.ident "static_cast".toList :: .lt :: .ident ty :: .gt :: .lp :: (fbToks neg mant e10 ++ [.rp])) =
+      some (.cast (tyOf ty) (fbAst neg mant e10)) := by
+  rcases hty with h | h <;> subst h <;> cases neg <;> rfl
+
+theorem eval_fbAst (d : Dialect) (neg : Bool) {mant : Nat} {e10 : Int} {m E : Nat}
+    (h : roundDec binary64 false mant e10 = .fin false m E) :
+    eval d (fbAst neg mant e10) = .ok (.flt .double (.fin neg m E)) := by
+  have e0 : eval d (.flit mant e10 .none) = .ok (.flt .double (.fin false m E)) := by
+    rewrite [eval, h]; exact Eq.refl _
+  cases neg with
+  | false => exact e0
+  | true =>
+    show eval d (.neg (.flit mant e10 .none)) = _
+    rewrite [eval, e0, bind_ok]
+    exact Eq.refl _
+
+theorem usesStaticCast_fbToks (neg : Bool) (mant : Nat) (e10 : Int) (pre post : List Tok)
+    (hpre : usesStaticCast pre = false) (hpost : usesStaticCast post = false) :
+    usesStaticCast (pre ++ fbToks neg mant e10 ++ post) = false := by
+  unfold usesStaticCast at *
+  unfold fbToks
+  cases neg <;> simp_all
+
+theorem floatLiteralExpression_fallback (f : Frac) (hd : 0 < f.den) (hne : (isExact f.num && isExact (f.den : Int)) = false)
+    {s : Bool} {m E : Nat} (h : roundFrac binary64 f = .fin s m E) :
+    floatLiteralExpression f = .ok (pyFloatRepr (.fin s m E)) := by
+  unfold floatLiteralExpression
+  rewrite [hne]
+  simp only [Bool.false_eq_true, if_false]
+  rewrite [pyTrueDiv_eq f hd, h, finiteOrOverflow_fin, bind_ok]
+  exact Eq.refl _
+
+theorem filterLiteral_c_fallback (f : Frac) (hd : 0 < f.den) {w : Nat} (hw : w ≤ 64)
+    (hne : (isExact f.num && isExact (f.den : Int)) = false) {s : Bool} {m E : Nat} (h : roundFrac binary64 f = .fin s m E) :
+    filterLiteral Gen.cCfg (.frac f) (.float w) = .ok (cCast (floatTyStr w) (pyFloatRepr (.fin s m E))) := by
+  unfold filterLiteral
+  simp only [Gen.cCfg, asFrac]
+  rewrite [floatLiteralExpression_fallback f hd hne h, cFloatTypeName_eq hw, bind_ok, bind_ok]
+  show Except.ok _ = Except.ok _
+  congr 1
+
+theorem filterLiteral_cpp_fallback (f : Frac) (hd : 0 < f.den) {w : Nat} (hw : w ≤ 64)
+    (hne : (isExact f.num && isExact (f.den : Int)) = false) {s : Bool} {m E : Nat} (h : roundFrac binary64 f = .fin s m E) :
+    filterLiteral Gen.cppCfg (.frac f) (.float w) = .ok (cppCast (floatTyStr w) (pyFloatRepr (.fin s m E))) := by
+  unfold filterLiteral
+  simp only [Gen.cppCfg, asFrac]
+  rewrite [floatLiteralExpression_fallback f hd hne h, cFloatTypeName_eq hw, bind_ok, bind_ok]
+  show Except.ok _ = Except.ok _
+  congr 1
+
 
 end NunavutVerif.CLiteral
